@@ -72,7 +72,7 @@ type Term struct {
 }
 
 func constTerm(c int64) *Term { return &Term{C: c} }
-func symTerm(s *Sym) *Term   { return &Term{Syms: []*Sym{s}, Coefs: []int64{1}} }
+func symTerm(s *Sym) *Term    { return &Term{Syms: []*Sym{s}, Coefs: []int64{1}} }
 
 func (t *Term) IsConst() bool { return len(t.Syms) == 0 }
 func (t *Term) SingleSym() (*Sym, bool) {
@@ -219,7 +219,7 @@ type PtrV struct {
 	Nil  bool
 	Obj  int // heap object id
 	Path []PathElem
-	Unk  bool // unknown pointer (may be nil or anything)
+	Unk  bool          // unknown pointer (may be nil or anything)
 	Fn   *ssa.Function // pointer to global function? unused
 }
 
@@ -244,12 +244,12 @@ type ArrayV struct {
 type SliceV struct {
 	Nil      bool
 	MaybeNil bool
-	Obj int // array object id
-	Path []PathElem // field path from the object to the array (slices of arrays nested in structs); usually empty
-	Off *IntV
-	Len *IntV
-	Cap *IntV
-	Unk bool
+	Obj      int        // array object id
+	Path     []PathElem // field path from the object to the array (slices of arrays nested in structs); usually empty
+	Off      *IntV
+	Len      *IntV
+	Cap      *IntV
+	Unk      bool
 }
 
 type StructV struct {
@@ -261,16 +261,16 @@ type StrV struct {
 	Known bool
 	S     string
 	Len   *IntV
-	Bytes *SliceV // string(b) of a tracked byte slice (for []byte(string(b)) round trips)
+	Bytes *SliceV      // string(b) of a tracked byte slice (for []byte(string(b)) round trips)
 	Text  *textMeaning // abs_text.go: the string is the decimal / hex rendering of a value
 }
 
 type IfaceV struct {
-	Nil  bool
-	Unk  bool
-	Dyn  types.Type
-	V    Val
-	NonNil bool // unknown but known non-nil (e.g. fmt.Errorf result)
+	Nil      bool
+	Unk      bool
+	Dyn      types.Type
+	V        Val
+	NonNil   bool   // unknown but known non-nil (e.g. fmt.Errorf result)
 	Sentinel string // "pkg.Name" when the value was loaded from a package-level sentinel error variable
 }
 
@@ -285,19 +285,19 @@ type FuncV struct {
 type TupleV struct{ Vs []Val }
 
 type MapV struct {
-	Const   bool
-	Keys    []int64
-	Vals    []Val
-	Unk     bool
-	ElemT   types.Type
-	Obj     int
+	Const bool
+	Keys  []int64
+	Vals  []Val
+	Unk   bool
+	ElemT types.Type
+	Obj   int
 }
 
 type FloatV struct {
-	Known bool
-	F     float64
-	Expr  string // canonical symbolic expression (for formula comparison), "" if unknown
-	Mono  *Mono  // rational monomial normal form coef * prod(atom^exp), when the value is built by * and / only
+	Known   bool
+	F       float64
+	Expr    string // canonical symbolic expression (for formula comparison), "" if unknown
+	Mono    *Mono  // rational monomial normal form coef * prod(atom^exp), when the value is built by * and / only
 	Rounded string // "Round"/"Floor"/... applied on top of Mono (opaque wrapper), "" if none
 }
 
@@ -308,7 +308,7 @@ type Mono struct {
 }
 
 func monoOfAtom(name string) *Mono { return &Mono{Coef: 1, Pow: map[string]int{name: 1}} }
-func monoConst(c float64) *Mono     { return &Mono{Coef: c, Pow: map[string]int{}} }
+func monoConst(c float64) *Mono    { return &Mono{Coef: c, Pow: map[string]int{}} }
 
 func monoMul(a, b *Mono, sign int) *Mono {
 	r := &Mono{Coef: a.Coef, Pow: map[string]int{}}
